@@ -164,6 +164,14 @@ def split(crate, e, depth=0, enter=True):
             return [([(c, 0)], _some(fold_bin(('bin', 'Sub', a, b)))), ([(c, 1)], NONE)]
         c = ('bin', 'Ge', a, b)
         return [([(c, 1)], _some(fold_bin(('bin', 'Sub', a, b)))), ([(c, 0)], NONE)]
+    if _IS(e, 'bool>::then') or _IS(e, 'bool::then') or _IS(e, '::then_some'):
+        c = args[0]
+        if name.endswith('then_some'):
+            return [([(c, 1)], _some(args[1])), ([(c, 0)], NONE)]
+        cc = closure_cases(crate, args[1], [], depth + 1)
+        if cc is None:
+            return [([], e)]
+        return [([(c, 1)] + cs2, _some(r)) for cs2, r in cc] + [([(c, 0)], NONE)]
     if _IS(e, 'Option::<T>::is_none') or _IS(e, 'Option::<T>::is_some'):
         want_some = name.endswith('is_some')
         for cs, v in opt_cases(crate, args[0], depth, enter):
